@@ -3,11 +3,234 @@
 //! Thin public wrappers around crate-private cores so that the verification harness in
 //! /verif can drive them directly. Nothing here changes the behaviour of the library.
 #![allow(missing_docs)]
+#![allow(missing_debug_implementations)]
 
-use tiny_skia_path::IntSize;
+use alloc::vec::Vec;
+use core::num::NonZeroU16;
+
+use tiny_skia_path::{IntSize, LineCap, Path, Point, Rect};
+
+use crate::alpha_runs::{AlphaRun, AlphaRuns};
+use crate::blitter::Blitter;
+use crate::color::AlphaU8;
+use crate::geom::{IntSizeExt, ScreenIntRect};
+use crate::pipeline::RasterPipelineBlitter;
+use crate::{FillRule, LengthU32, Mask, Paint, PixmapMut};
 
 /// `pixmap::data_len_for_size` (the byte length `Pixmap::new` would allocate).
 pub fn data_len_for_size(width: u32, height: u32) -> Option<usize> {
     let size = IntSize::from_wh(width, height)?;
     crate::pixmap::verif_data_len_for_size(size)
+}
+
+/// One call of the `Blitter` trait.
+#[derive(Clone, Debug, PartialEq)]
+pub enum BlitOp {
+    H { x: u32, y: u32, width: u32 },
+    Rect { x: u32, y: u32, width: u32, height: u32 },
+    /// `runs`: 0 terminates, as in `AlphaRun = Option<NonZeroU16>`.
+    AntiH { x: u32, y: u32, aa: Vec<u8>, runs: Vec<u16> },
+    V { x: u32, y: u32, height: u32, alpha: u8 },
+    AntiH2 { x: u32, y: u32, alpha0: u8, alpha1: u8 },
+    AntiV2 { x: u32, y: u32, alpha0: u8, alpha1: u8 },
+    /// `blit_mask` is only ever produced internally by the RasterPipelineBlitter itself.
+    Other,
+}
+
+fn apply(blitter: &mut dyn Blitter, op: &BlitOp) {
+    match op {
+        BlitOp::H { x, y, width } => blitter.blit_h(*x, *y, LengthU32::new(*width).unwrap()),
+        BlitOp::Rect { x, y, width, height } => {
+            blitter.blit_rect(&ScreenIntRect::from_xywh(*x, *y, *width, *height).unwrap())
+        }
+        BlitOp::AntiH { x, y, aa, runs } => {
+            let mut aa = aa.clone();
+            let mut runs: Vec<AlphaRun> = runs.iter().map(|r| NonZeroU16::new(*r)).collect();
+            blitter.blit_anti_h(*x, *y, &mut aa, &mut runs);
+        }
+        BlitOp::V { x, y, height, alpha } => {
+            blitter.blit_v(*x, *y, LengthU32::new(*height).unwrap(), *alpha)
+        }
+        BlitOp::AntiH2 { x, y, alpha0, alpha1 } => blitter.blit_anti_h2(*x, *y, *alpha0, *alpha1),
+        BlitOp::AntiV2 { x, y, alpha0, alpha1 } => blitter.blit_anti_v2(*x, *y, *alpha0, *alpha1),
+        BlitOp::Other => {}
+    }
+}
+
+/// Runs blitter calls through `RasterPipelineBlitter::new(paint, mask, pixmap)`.
+/// Returns false when the blitter constructor rejects the draw (nothing drawn).
+pub fn blit(pixmap: &mut PixmapMut, paint: &Paint, mask: Option<&Mask>, ops: &[BlitOp]) -> bool {
+    let submask = mask.map(|m| m.as_submask());
+    let mut subpix = pixmap.as_subpixmap();
+    let mut blitter = match RasterPipelineBlitter::new(paint, submask, &mut subpix) {
+        Some(v) => v,
+        None => return false,
+    };
+    for op in ops {
+        apply(&mut blitter, op);
+    }
+    true
+}
+
+/// Same for the mask-target blitter (`Mask::fill_path`).
+pub fn blit_to_mask(mask: &mut Mask, ops: &[BlitOp]) -> bool {
+    let mut subpix = mask.as_subpixmap();
+    let mut blitter = match RasterPipelineBlitter::new_mask(&mut subpix) {
+        Some(v) => v,
+        None => return false,
+    };
+    for op in ops {
+        apply(&mut blitter, op);
+    }
+    true
+}
+
+/// A blitter that records the calls it receives.
+#[derive(Default)]
+pub struct RecordingBlitter {
+    pub ops: Vec<BlitOp>,
+}
+
+impl Blitter for RecordingBlitter {
+    fn blit_h(&mut self, x: u32, y: u32, width: LengthU32) {
+        self.ops.push(BlitOp::H { x, y, width: width.get() });
+    }
+
+    fn blit_anti_h(&mut self, x: u32, y: u32, aa: &mut [AlphaU8], runs: &mut [AlphaRun]) {
+        // keep only the meaningful prefix: up to and including the terminating 0 run
+        let mut n = 0usize;
+        while let Some(r) = runs[n] {
+            n += usize::from(r.get());
+        }
+        self.ops.push(BlitOp::AntiH {
+            x,
+            y,
+            aa: aa[..n].to_vec(),
+            runs: runs[..=n].iter().map(|r| r.map(|v| v.get()).unwrap_or(0)).collect(),
+        });
+    }
+
+    fn blit_v(&mut self, x: u32, y: u32, height: LengthU32, alpha: AlphaU8) {
+        self.ops.push(BlitOp::V { x, y, height: height.get(), alpha });
+    }
+
+    fn blit_anti_h2(&mut self, x: u32, y: u32, alpha0: AlphaU8, alpha1: AlphaU8) {
+        self.ops.push(BlitOp::AntiH2 { x, y, alpha0, alpha1 });
+    }
+
+    fn blit_anti_v2(&mut self, x: u32, y: u32, alpha0: AlphaU8, alpha1: AlphaU8) {
+        self.ops.push(BlitOp::AntiV2 { x, y, alpha0, alpha1 });
+    }
+
+    fn blit_rect(&mut self, rect: &ScreenIntRect) {
+        self.ops.push(BlitOp::Rect {
+            x: rect.x(),
+            y: rect.y(),
+            width: rect.width(),
+            height: rect.height(),
+        });
+    }
+
+    fn blit_mask(&mut self, _mask: &crate::blitter::Mask, _clip: &ScreenIntRect) {
+        self.ops.push(BlitOp::Other);
+    }
+}
+
+fn clip_rect(width: u32, height: u32) -> Option<ScreenIntRect> {
+    Some(IntSize::from_wh(width, height)?.to_screen_int_rect(0, 0))
+}
+
+/// The blitter calls `scan::path::fill_path` / `scan::path_aa::fill_path` make for a clip of
+/// `width` x `height` at the origin.
+pub fn fill_path_spans(path: &Path, fill_rule: FillRule, anti_alias: bool, width: u32, height: u32) -> Vec<BlitOp> {
+    let mut rec = RecordingBlitter::default();
+    if let Some(clip) = clip_rect(width, height) {
+        if anti_alias {
+            crate::scan::path_aa::fill_path(path, fill_rule, &clip, &mut rec);
+        } else {
+            crate::scan::path::fill_path(path, fill_rule, &clip, &mut rec);
+        }
+    }
+    rec.ops
+}
+
+/// The blitter calls of `scan::fill_rect` / `scan::fill_rect_aa`.
+pub fn fill_rect_spans(rect: &Rect, anti_alias: bool, width: u32, height: u32) -> Vec<BlitOp> {
+    let mut rec = RecordingBlitter::default();
+    if let Some(clip) = clip_rect(width, height) {
+        if anti_alias {
+            crate::scan::fill_rect_aa(rect, &clip, &mut rec);
+        } else {
+            crate::scan::fill_rect(rect, &clip, &mut rec);
+        }
+    }
+    rec.ops
+}
+
+/// The blitter calls of the hairline strokers.
+pub fn hairline_spans(path: &Path, line_cap: LineCap, anti_alias: bool, width: u32, height: u32) -> Vec<BlitOp> {
+    let mut rec = RecordingBlitter::default();
+    if let Some(clip) = clip_rect(width, height) {
+        if anti_alias {
+            crate::scan::hairline_aa::stroke_path(path, line_cap, &clip, &mut rec);
+        } else {
+            crate::scan::hairline::stroke_path(path, line_cap, &clip, &mut rec);
+        }
+    }
+    rec.ops
+}
+
+/// `LineEdge::new`: (x, dx, first_y, last_y, winding).
+pub fn line_edge_new(p0: Point, p1: Point, shift: i32) -> Option<(i32, i32, i32, i32, i32)> {
+    let e = crate::edge::LineEdge::new(p0, p1, shift)?;
+    Some((e.x, e.dx, e.first_y, e.last_y, i32::from(e.winding)))
+}
+
+/// `line_clipper::intersect`.
+pub fn line_clipper_intersect(src: [Point; 2], clip: &Rect) -> Option<[Point; 2]> {
+    let mut dst = [Point::zero(); 2];
+    if crate::line_clipper::intersect(&src, clip, &mut dst) {
+        Some(dst)
+    } else {
+        None
+    }
+}
+
+/// `line_clipper::clip`: the polyline (up to 4 points) a segment is clipped to.
+pub fn line_clipper_clip(src: [Point; 2], clip: &Rect, can_cull_to_the_right: bool) -> Vec<Point> {
+    let mut pts = [Point::zero(); crate::line_clipper::MAX_POINTS];
+    crate::line_clipper::clip(&src, clip, can_cull_to_the_right, &mut pts).to_vec()
+}
+
+/// A scriptable `AlphaRuns`.
+pub struct AlphaRunsHook {
+    runs: AlphaRuns,
+    width: LengthU32,
+}
+
+impl AlphaRunsHook {
+    pub fn new(width: u32) -> Option<Self> {
+        let width = LengthU32::new(width)?;
+        Some(AlphaRunsHook { runs: AlphaRuns::new(width), width })
+    }
+
+    pub fn add(&mut self, x: u32, start_alpha: u8, middle_count: usize, stop_alpha: u8, max_value: u8, offset_x: usize) -> usize {
+        self.runs.add(x, start_alpha, middle_count, stop_alpha, max_value, offset_x)
+    }
+
+    pub fn reset(&mut self) {
+        self.runs.reset(self.width);
+    }
+
+    pub fn is_empty(&self) -> bool {
+        self.runs.is_empty()
+    }
+
+    /// (runs, alpha) as raw arrays (run 0 = None).
+    pub fn dump(&self) -> (Vec<u16>, Vec<u8>) {
+        (
+            self.runs.runs.iter().map(|r| r.map(|v| v.get()).unwrap_or(0)).collect(),
+            self.runs.alpha.clone(),
+        )
+    }
 }
